@@ -168,21 +168,23 @@ theorem parseSig_of_elem (o : Oracle) (hb64 : B64Law o) (p : Bytes) (nb : Bool) 
   simp only [hps, hpsb, hss, hssb]
   have d1 : (b64Decode e.rawProtected).run o = .ok hj := (b64Decode_ok o _ _).2 x2
   have d2 : (b64Decode e.b64signature).run o = .ok e.signature := (b64Decode_ok o _ _).2 y2
-  -- protected part
+  -- protected part, then the b64 consistency step of every entry
   have hprot : ((do
         let raw ← b64Decode e.rawProtected
         let h ← unmarshalHeader raw
-        if (i == 0) = true then pure (some h, e.rawProtected, h.nb64)
-        else if (nb0 != h.nb64) = true then PO.fail "parse"
-        else pure (some h, e.rawProtected, nb0) : PO (Option Header × Bytes × Bool))).run o =
+        pure (some h, e.rawProtected, h.nb64) : PO (Option Header × Bytes × Bool))).run o =
       .ok (some s.hp', e.rawProtected, nb) := by
     rw [PO.run_bind_ok o _ _ _ d1, PO.run_bind_ok o _ _ _ hdec]
-    by_cases h0 : i = 0
-    · simp [h0, hnbp]
-    · have : (i == 0) = false := by simpa using h0
-      simp [this, hi h0, hnbp]
+    simp [hnbp]
   rw [PO.run_bind_ok o _ _ _ hprot]
   simp only
+  have hflag : ((if (i == 0) = true then pure nb
+      else if (nb0 != nb) = true then PO.fail "parse" else pure nb0 : PO Bool)).run o = .ok nb := by
+    by_cases h0 : i = 0
+    · simp [h0]
+    · have : (i == 0) = false := by simpa using h0
+      simp [this, hi h0]
+  rw [PO.run_bind_ok o _ _ _ hflag]
   -- unprotected part
   cases hh : s.hdr with
   | none =>
